@@ -155,6 +155,29 @@ func buildCorpus(c *Ctx, nGen int, withRepo, withStd bool) ([]corpusFn, error) {
 			}
 		}
 	}
+	// the hand-shaped specials of the collide suite (selects with used received values, hoists, nested IVs …)
+	if nGen > 0 {
+		for si, sp := range genSpecials(r.Fork()) {
+			if len(sp.Files) > 0 || sp.Family == "oversized" {
+				continue
+			}
+			for vi, src := range []string{sp.P, sp.Q} {
+				f, err := writeModule(c.Work, fmt.Sprintf("cgsp%d_%d", si, vi), "a.go", src)
+				if err != nil {
+					return nil, err
+				}
+				res, err := fingerprintFile(f, src, ir.DefaultLiteralPolicy)
+				if err != nil {
+					continue
+				}
+				for _, fr := range res {
+					if fn := fr.GetSSAFunction(); fn != nil {
+						corpus = append(corpus, corpusFn{fr.FunctionName, "special:" + sp.Name, fn})
+					}
+				}
+			}
+		}
+	}
 	if withRepo {
 		repo := os.Getenv("VERIF_REPO")
 		if repo == "" {
